@@ -192,6 +192,7 @@ static void run_case( vcase::Case const& c, size_t cap )
     for ( int i = 0; i < 1000 && st->pop( v ); ++i ) std::printf( " %d", v );
     std::printf( "\nmonitor disposed_read %d\n", g_disposed_read );
     st.reset();
+    std::fflush( stdout );      // a crash in a later case must not lose this one's log
 }
 
 template <template <class, bool, class> class Family, class GC>
